@@ -382,6 +382,15 @@ def handle (j : Json) : Json :=
           (r.1, acc.2 ++ [jo])) (ProcSt.init, [])
         return Json.mkObj [("outs", Json.arr outs.toArray)]
       else throw "bad session kind"
+    | "c04guard" =>
+      -- `check_heralds_detectors`: does `probs_svd` take its early exit?
+      let m ← natOf j "m"
+      let hs ← heraldsOfJson m (← j.getObjVal? "heralds")
+      let maxes ← (← arrOf j "maxes").toList.mapM fun (x : Json) => match x with
+        | .null => pure (none : Option ℕ)
+        | v => do return some (← v.getNat?)
+      if !maxes.isEmpty && maxes.length ≠ m then throw "bad number of detectors"
+      return Json.mkObj [("ok", toJson (checkHeraldsDetectors hs maxes))]
     | "interleave" =>
       let m ← natOf j "m"
       let hs ← (← arrOf j "heralds").toList.mapM fun h => do
